@@ -98,6 +98,9 @@ def run(name, props):
     meta = json.load(open(os.path.join(d, "meta.json")))
     if not props:
         props = [meta["property"]]
+    if meta.get("obsolete_after"):
+        print(f"[{name}] skipped: obsolete after {meta['obsolete_after'][:60]}...")
+        return
     dirty = sh("git -C /repo status --porcelain --untracked-files=no")[1].strip()
     assert not dirty, "/repo has uncommitted changes: " + dirty
     rc, out = sh(f"git -C /repo apply {os.path.join(d, 'patch.diff')}")
